@@ -139,7 +139,7 @@ class SimNet:
         self.call = 0
         self.blocked: list = []  # (call, sockid): a read that could never complete
         self.raw_io: list = []  # I/O on an unwrapped socket although TLS is configured
-        self.failing: dict = {}  # addrkey -> 'refused' | 'timeout' | 'reset'  (persistent, C13)
+        self.failing: dict = {}  # addrkey -> 'refused' | 'timeout' | 'reset' | 'unreach'  (persistent, C13)
         self.sent: list = []  # (call, sockid, bytes) everything handed to sendall and delivered
         self.rx: list = []  # (call, sockid, bytes) everything returned by recv
         self.hard: list = []  # (call, addrkey, label): deviations that make an exchange fail
@@ -331,6 +331,9 @@ class SimSocket:
         if persistent == "timeout":
             net.log("connect_fail", self, key, "timeout", self.timeout)
             raise _realsocket.timeout("timed out")
+        if persistent == "unreach":
+            net.log("connect_fail", self, key, "unreach", self.timeout)
+            raise OSError(errno.EHOSTUNREACH, "No route to host")
         c = net.choose("connect", net.menu.get("connect", ()))
         if c.startswith("int:"):
             net.log("connect_fail", self, key, c, self.timeout)
